@@ -181,13 +181,16 @@ pub struct GenCfg {
     pub max_stmts: usize,
     /// probability (x/16) that a parameter/local re-uses the name of a global entity
     pub shadow_16: usize,
+    /// probability (x/16) that a parameter/local is named like a predefined procedure (valid SPL:
+    /// the procedure then cannot be called there); 0 = never and no choice is consumed
+    pub predef_shadow_16: usize,
     /// total node budget
     pub budget: usize,
 }
 
 impl Default for GenCfg {
     fn default() -> Self {
-        Self { max_decls: 8, max_depth: 4, max_params: 5, max_locals: 5, max_stmts: 5, shadow_16: 2, budget: 260 }
+        Self { max_decls: 8, max_depth: 4, max_params: 5, max_locals: 5, max_stmts: 5, shadow_16: 2, predef_shadow_16: 0, budget: 260 }
     }
 }
 
@@ -311,6 +314,12 @@ impl<'s, 'a> Gen<'s, 'a> {
     fn local_name(&mut self, taken: &[String], prefix: &str, allow_shadow: bool) -> (String, bool) {
         if allow_shadow && !self.used_global.is_empty() && self.s.below(16) < self.cfg.shadow_16 {
             let g = self.used_global[self.s.below(self.used_global.len())].clone();
+            if !taken.iter().any(|t| t == &g) {
+                return (g, true);
+            }
+        }
+        if allow_shadow && self.cfg.predef_shadow_16 > 0 && self.s.below(16) < self.cfg.predef_shadow_16 {
+            let g = BUILTINS[self.s.below(BUILTINS.len())].0.to_string();
             if !taken.iter().any(|t| t == &g) {
                 return (g, true);
             }
